@@ -52,6 +52,7 @@ ASSUMPTIONS = [
 ]
 
 STEM = "rec_g0_t0.imec0"
+UUID = ".3c3d1ca8-6e11-4a1c-9a0e-4c0f7f3e2f11"     # file names on the archive carry a UUID before the extension
 
 
 # ---------------------------------------------------------------------------------------------
@@ -59,8 +60,9 @@ STEM = "rec_g0_t0.imec0"
 
 def do_step(step, root):
     root = Path(root)
-    binf = root / f"{STEM}.ap.bin"
-    cbin = root / f"{STEM}.ap.cbin"
+    U = step.get("_u", "")
+    binf = root / f"{STEM}.ap{U}.bin"
+    cbin = root / f"{STEM}.ap{U}.cbin"
     op = step["op"]
     ckw = {}
     if step.get("via") == "kwargs":
@@ -139,7 +141,11 @@ def _gen_world(r, tier):
         ns = min(ns, 4000)
     # metadata without fileSizeBytes/fileTimeSecs (what a running/interrupted acquisition leaves) is a legal input
     meta_form = "none" if r.random() < 0.12 else "complete"
-    return {"fixture": fixture, "nap": nap, "ns": ns, "data_seed": r.randrange(1 << 30), "meta_form": meta_form}
+    # archive layout: our files carry a UUID, and a sibling recording without UUID (other length, other
+    # content) with the same stem sits in the same folder: companion lookup must not pick the sibling's files
+    uuid_layout = r.random() < 0.15
+    return {"fixture": fixture, "nap": nap, "ns": ns, "data_seed": r.randrange(1 << 30), "meta_form": meta_form,
+            "uuid_layout": uuid_layout}
 
 
 def _gen_knobs(r):
@@ -237,12 +243,23 @@ class World:
         self.O = world.make_data(w["data_seed"], w["ns"], w["nap"])
         self.Obytes = self.O.tobytes()
         sf = "none" if w.get("meta_form") == "none" else "complete"
+        self.U = UUID if w.get("uuid_layout") else ""
         world.write_recording(self.root, STEM, w["fixture"], self.O, size_fields=sf)
         world.write_recording(self.oracle, STEM, w["fixture"], self.O, size_fields=sf)
-        self.bin = self.root / f"{STEM}.ap.bin"
-        self.cbin = self.root / f"{STEM}.ap.cbin"
-        self.ch = self.root / f"{STEM}.ap.ch"
-        self.meta = self.root / f"{STEM}.ap.meta"
+        if self.U:
+            for ext in ("bin", "meta"):
+                (self.root / f"{STEM}.ap.{ext}").rename(self.root / f"{STEM}.ap{self.U}.{ext}")
+            # the sibling: shorter recording, complete .bin/.meta/.cbin/.ch set under the UUID-less names
+            D = world.make_data(w["data_seed"] ^ 0x5151, max(200, w["ns"] // 3), w["nap"])
+            world.write_recording(self.root, STEM, w["fixture"], D)
+            sd = spikeglx.Reader(self.root / f"{STEM}.ap.bin")
+            sd.compress_file(keep_original=True, chunk_duration=0.05, n_threads=1)
+            sd.close()
+        self.bin = self.root / f"{STEM}.ap{self.U}.bin"
+        self.cbin = self.root / f"{STEM}.ap{self.U}.cbin"
+        self.ch = self.root / f"{STEM}.ap{self.U}.ch"
+        self.meta = self.root / f"{STEM}.ap{self.U}.meta"
+        self.decoys = {p: sha1_file(p) for p in (self.root / f"{STEM}.ap.{e}" for e in ("bin", "meta", "cbin", "ch"))} if self.U else {}
         self.meta_sha = sha1_file(self.meta)
         self.knobs = dict(knobs)
 
@@ -263,9 +280,10 @@ class World:
         else:
             o["cbin"] = "complete" if cbin_is(self.cbin, self.O, self.ch) else "other"
         o["scratch"] = {}
-        for p in sorted(self.root.rglob("*.ap.bin")):
-            if p != self.bin:
+        for p in sorted(self.root.rglob("*.bin")):
+            if p != self.bin and p not in self.decoys:
                 o["scratch"][os.path.relpath(p, self.root)] = st_bin(p)
+        o["decoys_ok"] = all(p.exists() and sha1_file(p) == h for p, h in self.decoys.items())
         o["tmp"] = sorted(os.path.relpath(p, self.root) for p in self.root.rglob("*") if p.name.endswith(("_tmp", "_temp")))
         return o
 
@@ -363,6 +381,7 @@ def _exec_step(W, st, model, log, stats, bump, seed, progress=False):
         W.set_config()
     fault = st.get("fault")
     pool_seed = seed % 1000
+    st["_u"] = W.U
     if fault and fault.get("auto"):
         dr = session.dry_run(W.root, do_step, st, W.cfg, pool_seed)
         fr = rng_of(fault["rseed"])
@@ -399,12 +418,20 @@ def _exec_step(W, st, model, log, stats, bump, seed, progress=False):
         if fired["kind"] == "kill" and (lc.startswith("rename") or lc.startswith("move")):
             bump("probes", "kill_before_publish")
     # ---- clauses on the durable state (every post-state, faulted or not)
+    if not after.get("decoys_ok", True):
+        raise Violation("C02.R", f"{sig0}:sibling-touched", "files of the sibling recording (same stem, no UUID) were changed or removed | " + ctx)
+    if W.U:
+        bump("probes", "uuid_named_files_with_sibling_recording")
     if not W.meta.exists():
         raise Violation("C02.A2", f"{sig0}:meta-removed", "the recording's metadata file was removed | " + ctx)
     if sha1_file(W.meta) != W.meta_sha:
         raise Violation("C02.A2", f"{sig0}:meta-changed", "metadata file changed | " + ctx)
     if after["cbin"] == "other":
-        raise Violation("C02.A2", f"{sig0}:cbin-incomplete", "a file named .cbin exists but does not decode to the whole original | " + ctx)
+        # tolerated only while an in-place decompression is removing its source (the .cbin and its
+        # .ch go one after the other) and the replacement .bin is already complete
+        removing_source = op == "decompress" and not keep and after["bin"] == "complete" and before["cbin"] == "complete"
+        if not removing_source:
+            raise Violation("C02.A2", f"{sig0}:cbin-incomplete", "a file named .cbin exists but does not decode to the whole original | " + ctx)
     for pth, s in after["scratch"].items():
         if s == "other":
             raise Violation("C02.A2", f"{sig0}:scratch-incomplete", f"scratch {pth} exists but is not the complete original | " + ctx)
@@ -472,6 +499,12 @@ def _exec_step(W, st, model, log, stats, bump, seed, progress=False):
     # ---- model := observation
     model["bin"] = {"other": "tainted"}.get(after["bin"], after["bin"])
     model["cbin"] = after["cbin"]
+    if model["cbin"] == "other":
+        # leftover of an interrupted source removal: the operator finishes the removal
+        for p in (W.cbin, W.ch):
+            if p.exists():
+                p.unlink()
+        model["cbin"] = "absent"
     if op in ("compress", "inplace_cycle") and after["cbin"] == "complete" and not (failed and before["cbin"] == "complete"):
         model["chunk_samples"] = st.get("chunk_samples")
         model["chunk_duration"] = st.get("chunk_duration")
@@ -532,7 +565,7 @@ def _read_checks(W, model, rsel, log, stats, bump):
     cache = W.knobs["cache_size"]
     W.set_config()
     sels = _selectors(rsel, ns, nc, cs, cache)
-    ref = spikeglx.Reader(W.oracle / f"{STEM}.ap.bin")
+    ref = spikeglx.Reader(W.oracle / f"{STEM}.ap.bin")     # the oracle copy keeps the plain name
     entries = []
     if model["bin"] == "complete":
         entries.append(("bin", W.bin))
@@ -575,8 +608,8 @@ def _read_checks(W, model, rsel, log, stats, bump):
     finally:
         ref.close()
     # remove scratch outputs (the oracle consumed them); leftovers *_temp stay as debris by design
-    for p in list(W.root.rglob("*.ap.bin")):
-        if p != W.bin and rsel.random() < 0.7:
+    for p in list(W.root.rglob("*.bin")):
+        if p != W.bin and p not in W.decoys and rsel.random() < 0.7:
             p.unlink()
             m = p.with_suffix(".meta")
             if m.exists():
